@@ -691,3 +691,26 @@ Proof.
   unfold Known_C15_two_sessions, Known_C15_session_touch. vm_compute.
   split; [reflexivity|]. split; discriminate.
 Qed.
+
+(* PrefixLimitExceeded is signalled only when the session really holds its maximum *)
+Lemma C15_limit_signalled_only_when_full :
+  forall f mx shard ops c s net rpid nh a filt nhinv,
+    Forall (op_wf f) ops -> Forall (ctr_disciplined f mx) ops -> mx c < 4294967296 ->
+    session_alive (f c) c false ops = true ->
+    ~ Known_C15_session_touch c shard ops ->
+    let t := run (empty_table shard) ops in
+    s_tok s = c ->
+    snd (step t (Insert s net rpid nh a filt nhinv (Some (mx c, c)))) = true ->
+    sess_recount t c = mx c.
+Proof.
+  intros f mx shard ops c s net rpid nh a filt nhinv Hw Hd Hmx Hal Hkn t Hs Hlim.
+  destruct (C15_limit_respected_outside_known f mx shard ops c Hw Hd Hmx Hal Hkn) as [H1 H2]. fold t in H1, H2.
+  assert (Hge : mx c <= ctr_of t c).
+  { revert Hlim. cbn [step]. unfold insert. cbv zeta.
+    destruct (ins_over t (Some (mx c, c)) _) eqn:Ho.
+    - intros _. unfold ins_over in Ho. apply andb_true_iff in Ho as [_ Ho]. apply N.leb_le in Ho. exact Ho.
+    - destruct (ins_pid _ _ _) as [pn|]; [|cbn [snd]; intro H; discriminate H].
+      unfold ins_out. destruct (t_deferring t); [cbn [snd]; intro H; discriminate H|].
+      destruct (negb _ && _); cbn [snd]; intro H; discriminate H. }
+  lia.
+Qed.
